@@ -30,10 +30,13 @@ import (
 	"strings"
 	"sync/atomic"
 	"time"
+	"unsafe"
 
 	"github.com/xelaj/mtproto"
 	"github.com/xelaj/mtproto/internal/encoding/tl"
+	"github.com/xelaj/mtproto/internal/mtproto/messages"
 	"github.com/xelaj/mtproto/internal/mtproto/objects"
+	"github.com/xelaj/mtproto/internal/transport"
 	"github.com/xelaj/mtproto/internal/session"
 	"github.com/xelaj/mtproto/telegram"
 	"github.com/xelaj/mtproto/verifharness/csched"
@@ -49,6 +52,7 @@ type config struct {
 	warnCap int // -1: nil channel; -2: unbuffered channel with a live reader; >= 0: buffered with that capacity
 	handler int // 0: none; 1: one that accepts everything; 2: one that declines; 3: one that declines, then one that accepts
 	fresh   bool
+	wire    bool // the network write is a step boundary of its own (transport wrapped, yield point "wire")
 }
 
 func (c config) String() string {
@@ -58,6 +62,9 @@ func (c config) String() string {
 	}
 	if c.warnCap == -2 {
 		w = "live"
+	}
+	if c.wire {
+		return fmt.Sprintf("warn=%s handler=%d fresh=%s wire=1", w, c.handler, b01(c.fresh))
 	}
 	return fmt.Sprintf("warn=%s handler=%d fresh=%s", w, c.handler, b01(c.fresh))
 }
@@ -88,6 +95,8 @@ func parseConfig(tok []string) config {
 			c.handler, _ = strconv.Atoi(kv[1])
 		case "fresh":
 			c.fresh = kv[1] == "1"
+		case "wire":
+			c.wire = kv[1] == "1"
 		}
 	}
 	return c
@@ -144,6 +153,8 @@ type run struct {
 	rx      string          // actor name of the current receive loop
 	rxSeen  map[string]bool // every receive loop actor seen so far
 	inRecv  map[string]bool // callers that passed "prerecv"
+	sawWire map[string]bool // senders whose frame was observed at "wire" (configuration wire=1)
+	nwire   int
 	lock    string          // actor holding the send lock
 	reads   int             // top-level frames the receive loops have taken
 	base    int64
@@ -216,12 +227,46 @@ func (r *run) hook(point string, id int64) {
 	}
 }
 
+// wireTransport makes the network write itself a scheduling point (configuration wire=1): the bytes are out - the
+// server can answer or reject the message - but WriteMsg has not returned to sendPacket yet. For the model the write
+// step is complete at "wire"; the step from there to the sender's "written" yield is a stutter (no shared state may
+// change in it: whatever sendPacket does after the write touches only the sender's own counter).
+type wireTransport struct {
+	transport.Transport
+	r *run
+}
+
+func (w wireTransport) WriteMsg(msg messages.Common, requireToAck bool) error {
+	err := w.Transport.WriteMsg(msg, requireToAck)
+	if err == nil {
+		w.r.hook("wire", int64(msg.GetMsgID()))
+	}
+	return err
+}
+
+// wrapTransport replaces m.transport (unexported: reflection) by the wrapper. Called while every client goroutine
+// is parked, after the set-up and after every reconnect (CreateConnection makes a new transport).
+func (r *run) wrapTransport() {
+	if !r.cfg.wire {
+		return
+	}
+	f := reflect.ValueOf(r.cl).Elem().FieldByName("transport")
+	if !f.IsValid() || f.Kind() != reflect.Interface {
+		trouble("no transport field in MTProto")
+	}
+	p := (*transport.Transport)(unsafe.Pointer(f.UnsafeAddr()))
+	if _, done := (*p).(wireTransport); !done && *p != nil {
+		*p = wireTransport{*p, r}
+	}
+}
+
 func (r *run) start(idx, ncallers int, cfg config) {
 	r.idx = idx
 	r.cfg = cfg
 	r.t0 = time.Now()
 	r.base = (r.t0.Unix() - 2) << 32
 	r.inRecv = map[string]bool{}
+	r.sawWire = map[string]bool{}
 	r.rxSeen = map[string]bool{}
 	r.dir = filepath.Join(os.TempDir(), fmt.Sprintf("verif-c11-%d", os.Getpid()))
 	if err := os.MkdirAll(r.dir, 0o700); err != nil {
@@ -361,6 +406,7 @@ func (r *run) connect(idx, attempt int) bool {
 		trouble("%v", err)
 	}
 	r.conns = 1
+	r.wrapTransport()
 	_, salt, _, _ := r.cl.VerifSnapshot()
 	r.initSalt = salt
 	if r.front != nil {
@@ -541,7 +587,7 @@ func (r *run) enabled(actor string) bool {
 		return r.lock == "" && !r.closePending
 	case "idgen":
 		return !r.closePending
-	case "written", "dispatch", "reconnect":
+	case "written", "dispatch", "reconnect", "wire":
 		return true
 	case "prerecv":
 		return isRx
@@ -577,14 +623,25 @@ func (r *run) onArrival(actor string, ar csched.Arrival) []string {
 	if actor == r.rx {
 		show = "rx"
 	}
-	items = append(items, show+"@"+ar.Point)
+	if ar.Point == "wire" {
+		items = append(items, show+"@written") // the model's "written, not yet returned"
+	} else {
+		items = append(items, show+"@"+ar.Point)
+	}
 	switch ar.Point {
 	case "idgen", "prelock":
 		delete(r.inRecv, actor)
 		if c != nil && c.active != nil && ar.ID != 0 {
 			c.active.msgID = ar.ID
 		}
-	case "written":
+	case "written", "wire":
+		if ar.Point == "written" && r.cfg.wire && r.sawWire[actor] {
+			delete(r.sawWire, actor) // the frame was observed at "wire"
+			break
+		}
+		if ar.Point == "wire" {
+			r.sawWire[actor] = true
+		}
 		frames, err := r.srv.WaitFrames(r.nframes+1, watchdog)
 		if err != nil {
 			trouble("frame written by %s did not reach the server: %v", actor, err)
@@ -754,6 +811,7 @@ func (r *run) doStep(actor string) {
 			trouble("%v", err)
 		}
 		r.closePending = false
+		r.wrapTransport()
 		items = append(items, "rx@read", fmt.Sprintf("gen=%d", r.conns), "plain="+strconv.Itoa(r.plainSeen()))
 	default:
 		if p.Point == "prelock" {
@@ -779,6 +837,12 @@ func (r *run) doStep(actor string) {
 			clk = r.clk(ar.ID)
 		}
 		items = r.onArrival(actor, ar)
+		if p.Point == "wire" {
+			// WriteMsg returns, the sender finishes its block: no shared state changes, the model's actor stays
+			r.nwire++
+			r.record("stutter "+show, strings.Join(items, " "))
+			return
+		}
 	}
 	if isRx {
 		items = append(items, r.rxState())
